@@ -721,6 +721,18 @@ class Interp:
                 finally:
                     self.stack.pop()
             raise Undecided(f"class attribute {attr}")
+        if isinstance(obj, Opaque) and obj.tag == "super":
+            cls, self_obj = obj.payload
+            base_cls = self_obj.cls if isinstance(self_obj, Obj) else self_obj
+            found = base_cls.lookup(attr, start_after=cls)
+            if found is None:
+                if attr == "__init__":
+                    return Builtin("object.__init__", lambda i, *a, **k: None)
+                raise RaiseEx("AttributeError", f"super().{attr}")
+            kind, c2, item = found
+            if kind == "method":
+                return Bound(FuncRef(c2.module, item, f"{c2.module}:{c2.name}.{attr}", c2), self_obj)
+            raise Undecided("super() access to a non-method")
         if isinstance(obj, ModRef):
             if obj.name.startswith("graphiq"):
                 try:
